@@ -72,6 +72,16 @@ def r2(ctx):
     r = [x for x in returns_of(fn) if x not in [s for s in ast.walk(lp) if isinstance(s, ast.Return)]]
     ok = bool(r) and norm(r[-1].value) == "Term(factors or {Factor('1', eval_method='literal')})"
     ctx.check(ok, "C20.R2", "an empty product becomes the literal 1 term", f.where, ctx.construct(f, text="one"), f"final return `{norm(r[-1].value) if r else None}`")
+    # nothing else happens per variable: the loop body is exactly (affected set, zero short-circuit, replacement)
+    kinds = [type(x).__name__ for x in lp.body]
+    ctx.check(kinds == ["Assign", "If", "Assign"] and not lp.orelse and not any(isinstance(x, (ast.Break, ast.Continue)) for x in ast.walk(lp)), "C20.R2",
+              "each variable is processed by exactly: affected set, zero short-circuit, replacement (no early exit)", f.module.line(lp), ctx.construct(f, text="loop shape"),
+              f"loop body statements are {kinds}{' with break/continue' if any(isinstance(x, (ast.Break, ast.Continue)) for x in ast.walk(lp)) else ''}: an early exit skips the "
+              f"zero rule for the remaining variables (d/db of the constant left by d/da must be 0, not 1)")
+    syms = [c for c in ast.walk(lp) if isinstance(c, ast.Call) and dotted(c.func) == "_factor_symbols"]
+    ctx.check(len(syms) == 1 and norm(syms[0].args[0]) == "factor" and any(isinstance(g, ast.GeneratorExp) and norm(g.generators[0].iter) == "factors" for g in ast.walk(lp)), "C20.R2",
+              "symbols are taken from the CURRENT factor set on every pass", f.module.line(lp), ctx.construct(f, text="current factors"),
+              "affected factors must be recomputed from the running `factors` for each variable (a precomputed map misses factors produced by earlier passes)")
     init = [n for n in fn.body if isinstance(n, ast.Assign) and norm(n.targets[0]) == "factors"]
     ctx.check(bool(init) and norm(init[0].value) == "OrderedSet(term.factors)", "C20.R2", "the term's factors are kept in order", f.where, ctx.construct(f, text="init"),
               "factors must start as OrderedSet(term.factors)")
